@@ -273,6 +273,15 @@ class Runner:
                         v = pat.const_value(M.class_consts[k][node.attr])
                         if v is not None:
                             return v
+                        # a class-level container (`__caract_matrix = {}`): one object per run, so that what the code
+                        # stores in it is seen by its later reads
+                        state = self.__dict__.setdefault("_class_state", {})
+                        if (k, node.attr) not in state:
+                            try:
+                                state[(k, node.attr)] = ast.literal_eval(M.class_consts[k][node.attr])
+                            except (ValueError, TypeError, SyntaxError):
+                                break
+                        return state[(k, node.attr)]
             got = self._derived_attr(base, node.attr)
             if got is not NotImplemented:
                 return got
